@@ -2007,3 +2007,158 @@ Proof.
     + specialize (C3 j Hj E2). inversion C3 as [|? ? Hself _]; subst. cbn in Hself. rewrite (nth_error_nth_eq _ _ _ None E) in Hself. discriminate.
 Qed.
 End Concat.
+
+(** * adjoin / append of the square classes: block-diagonal layout *)
+Section Square.
+Context {ent : Type}.
+Variable eq_dec : forall x y : ent, {x = y} + {x <> y}.
+Variable val : list ent -> Z.
+Variable lbl : nat -> nat -> ent -> lab.
+Definition inb (x : ent) (l : list ent) : bool := if in_dec eq_dec x l then true else false.
+(** cells after adjoining entities [us] to a square block over [ts]: pairs inside one block keep their value, pairs
+    across the two blocks hold the fill value *)
+Definition val_bd (ts us : list ent) (l : list ent) : Z :=
+  match l with
+  | r :: c :: _ => if (inb r ts && inb c ts) || (inb r us && inb c us) then val l else FILLZ
+  | _ => val l
+  end.
+Lemma inb_true x l : In x l -> inb x l = true.
+Proof. unfold inb. intros H. destruct (in_dec eq_dec x l); [reflexivity|contradiction]. Qed.
+Lemma inb_false x l : ~ In x l -> inb x l = false.
+Proof. unfold inb. intros H. destruct (in_dec eq_dec x l); [contradiction|reflexivity]. Qed.
+
+Lemma build_ext (ess : list (list ent)) (v1 v2 : list ent -> Z) :
+  (forall l, Forall2 (fun x es => In x es) l ess -> v1 l = v2 l) -> build ess v1 = build ess v2.
+Proof.
+  revert v1 v2; induction ess as [|es r IH]; intros v1 v2 H; cbn.
+  - f_equal. apply H. constructor.
+  - f_equal. apply map_ext_in. intros e He. apply IH. intros l Hl. apply H. constructor; assumption.
+Qed.
+Lemma full_build (rest : list (list ent)) (z : Z) : full (map (@length ent) rest) z = build rest (fun _ => z).
+Proof.
+  induction rest as [|es r IH]; cbn; [reflexivity|]. f_equal. rewrite IH.
+  induction es as [|e es IHe]; cbn; [reflexivity|]. now rewrite IHe.
+Qed.
+
+Lemma blockdiag_build ts us rest : (forall x, In x ts -> ~ In x us) ->
+  blockdiag (map (@length ent) (ts :: ts :: rest)) (build (ts :: ts :: rest) val)
+            (map (@length ent) (us :: us :: rest)) (build (us :: us :: rest) val)
+  = (build ((ts ++ us) :: (ts ++ us) :: rest) (val_bd ts us), map (@length ent) ((ts ++ us) :: (ts ++ us) :: rest)).
+Proof.
+  intros Hdis. unfold blockdiag. cbn [map]. f_equal; [|now rewrite !app_length].
+  cbn [build kids]. f_equal. rewrite map_app. f_equal.
+  - (* rows of the old block *)
+    rewrite map_map. apply map_ext_in. intros r Hr. cbn [kids]. f_equal. rewrite map_app. f_equal.
+    + apply map_ext_in. intros c Hc. apply build_ext. intros l _. unfold val_bd. now rewrite (inb_true r ts Hr), (inb_true c ts Hc).
+    + rewrite full_build. clear -Hr Hdis.
+      assert (G : forall cs, (forall c, In c cs -> In c us) -> repeat (build rest (fun _ => FILLZ)) (length cs)
+                  = map (fun e => build rest (fun l => val_bd ts us (r :: e :: l))) cs).
+      { induction cs as [|c cs IH]; intros Hcs; cbn; [reflexivity|]. f_equal; [|apply IH; intros; apply Hcs; now right].
+        apply build_ext. intros l _. unfold val_bd.
+        assert (Hc : In c us) by (apply Hcs; now left).
+        rewrite (inb_false r us (Hdis r Hr)), andb_false_l, orb_false_r.
+        assert (~ In c ts) by (intros Hx; exact (Hdis c Hx Hc)). now rewrite (inb_false c ts H), andb_false_r. }
+      apply G. auto.
+  - (* rows of the new block *)
+    rewrite map_map. apply map_ext_in. intros r Hr. cbn [kids]. f_equal. rewrite map_app. f_equal.
+    + rewrite full_build.
+      assert (Hrts : ~ In r ts) by (intros Hx; exact (Hdis r Hx Hr)).
+      assert (G : forall cs, (forall c, In c cs -> In c ts) -> repeat (build rest (fun _ => FILLZ)) (length cs)
+                  = map (fun e => build rest (fun l => val_bd ts us (r :: e :: l))) cs).
+      { induction cs as [|c cs IH]; intros Hcs; cbn; [reflexivity|]. f_equal; [|apply IH; intros; apply Hcs; now right].
+        apply build_ext. intros l _. unfold val_bd.
+        assert (Hc : In c ts) by (apply Hcs; now left).
+        rewrite (inb_false r ts Hrts), andb_false_l, orb_false_l. now rewrite (inb_false c us (Hdis c Hc)), andb_false_r. }
+      apply G. auto.
+    + apply map_ext_in. intros c Hc. apply build_ext. intros l _. unfold val_bd. now rewrite (inb_true r us Hr), (inb_true c us Hc), orb_true_r.
+Qed.
+
+Lemma Rep_swap_val c s ess (val2 : list ent -> Z) : Rep val lbl c s ess ->
+  Rep val2 lbl c {| shape := shape s; data := build ess val2; axes := axes s |} ess.
+Proof. intros [R1 R2 R3 R4 R5 R6 R7]. split; try assumption; reflexivity. Qed.
+
+(** the operand of a square adjoin/append: a square block over new entities [us] (disjoint from the matrix' own),
+    with the effective label arrays as for the one-axis operations *)
+Theorem adjoin_square_refines c s k v ts us rest s' : wf_cls c -> (k < length (axs c))%nat -> taxes c k = [0; 1]%nat ->
+  Rep val lbl c s (ts :: ts :: rest) -> (forall x, In x ts -> ~ In x us) ->
+  o_shape v = map (@length ent) (us :: us :: rest) -> o_data v = build (us :: us :: rest) val ->
+  (forall j, (j < length (labs (ax_of s k)))%nat ->
+     match nth j (labs (ax_of s k)) None, eff_lab c k v j with
+     | Some _, Some g => g = map (lbl k j) us
+     | Some _, None => nth j (pol_adj (sch c k)) PReq = PFill /\ forall u, In u us -> lbl k j u = None
+     | None, g => g = None end) ->
+  op_adjoin c s k v = OK s' ->
+  Rep (val_bd ts us) lbl c s' ((ts ++ us) :: (ts ++ us) :: rest) /\ (drop_other c = false -> no_loss s s').
+Proof.
+  intros W Hk Ht R Hdis Hsh Hdat HL H.
+  pose proof (taxis_of_taxes c k 0%nat [1%nat] Ht) as Hta.
+  unfold op_adjoin, pre_binary in H. destruct (shapes_compat _ _ _); [|discriminate].
+  destruct (resolve_all _ _ c k v O _) as [gs|] eqn:Er; [|discriminate]. cbn [bind] in H.
+  destruct (join_labs _ _ gs) as [l|] eqn:Ej; [|discriminate].
+  unfold cat_data in H. assert (Esq : is_square c k = true) by (unfold is_square; now rewrite Ht). rewrite Esq in H.
+  rewrite (r_shape _ _ _ _ _ R), (r_data _ _ _ _ _ R), Hsh, Hdat, (blockdiag_build ts us rest Hdis) in H.
+  assert (Hlen : length (pol_adj (sch c k)) = length (labs (ax_of s k))).
+  { rewrite (r_nf _ _ _ _ _ R k Hk). apply pol_lengths. }
+  assert (Hk0 : nth (taxis c k) (o_shape v) O = length us) by (rewrite Hta, Hsh; reflexivity).
+  assert (HV : forall i, (i < length (labs (ax_of s k)))%nat ->
+     match nth i (labs (ax_of s k)) None, eff_lab c k v i with
+     | Some l0, Some g => l0 = map (lbl k i) ts /\ g = map (lbl k i) us
+     | Some l0, None => l0 = map (lbl k i) ts /\ nth i (pol_adj (sch c k)) PReq = PFill /\ forall u, In u us -> lbl k i u = None
+     | None, g => g = None end).
+  { intros i Hi. specialize (HL i Hi). destruct (nth i (labs (ax_of s k)) None) as [l0|] eqn:E; [|exact HL].
+    assert (El : l0 = map (lbl k i) ts).
+    { pose proof (r_labs _ _ _ _ _ R k i l0 Hk) as RL. rewrite Hta in RL. apply RL. rewrite <- E. now apply nth_error_nth'. }
+    destruct (eff_lab c k v i); [split; assumption|]. destruct HL; auto. }
+  destruct (join_labs_rep lbl (fun gl l0 => Some (l0 ++ gl)) (fun x y => x ++ y) c k v _ ts us Hk0
+              ltac:(intros g l0 r [= <-] j -> ->; now rewrite map_app)
+              _ _ gs l false Hlen Er HV Ej) as (L1 & L2 & L3).
+  set (s0 := {| shape := shape s; data := build (ts :: ts :: rest) (val_bd ts us); axes := axes s |}).
+  pose proof (Rep_swap_val c s _ (val_bd ts us) R) as R0. fold s0 in R0.
+  assert (E2 : (ts ++ us) :: (ts ++ us) :: rest = upd_all (taxes c k) (ts ++ us) (ts :: ts :: rest)) by (rewrite Ht; reflexivity).
+  rewrite E2 in *.
+  destruct (finish_new (val_bd ts us) lbl c s0 k (ts :: ts :: rest) (ts ++ us) _ _ l s' W R0 Hk eq_refl eq_refl L1 L2 L3 H) as [HR HN].
+  split; [exact HR|]. intros Hd. exact (HN Hd).
+Qed.
+Theorem append_square_refines c s k v ts us rest s' : wf_cls c -> (k < length (axs c))%nat -> taxes c k = [0; 1]%nat ->
+  Rep val lbl c s (ts :: ts :: rest) -> (forall x, In x ts -> ~ In x us) ->
+  o_shape v = map (@length ent) (us :: us :: rest) -> o_data v = build (us :: us :: rest) val ->
+  (forall j, (j < length (labs (ax_of s k)))%nat ->
+     match nth j (labs (ax_of s k)) None, eff_lab c k v j with
+     | Some _, Some g => g = map (lbl k j) us
+     | Some _, None => nth j (pol_adj (sch c k)) PReq = PFill /\ forall u, In u us -> lbl k j u = None
+     | None, g => g = None end) ->
+  op_append c s k v = OK s' ->
+  Rep (val_bd ts us) lbl c s' ((ts ++ us) :: (ts ++ us) :: rest) /\ no_loss s s'.
+Proof.
+  intros W Hk Ht R Hdis Hsh Hdat HL H.
+  pose proof (taxis_of_taxes c k 0%nat [1%nat] Ht) as Hta.
+  unfold op_append, pre_binary in H. destruct (shapes_compat _ _ _); [|discriminate].
+  destruct (resolve_all _ _ c k v O _) as [gs|] eqn:Er; [|discriminate]. cbn [bind] in H.
+  destruct (join_labs_inplace _ _ gs) as [l|] eqn:Ej; [|discriminate].
+  unfold cat_data in H. assert (Esq : is_square c k = true) by (unfold is_square; now rewrite Ht). rewrite Esq in H.
+  rewrite (r_shape _ _ _ _ _ R), (r_data _ _ _ _ _ R), Hsh, Hdat, (blockdiag_build ts us rest Hdis) in H.
+  assert (Hlen : length (pol_adj (sch c k)) = length (labs (ax_of s k))).
+  { rewrite (r_nf _ _ _ _ _ R k Hk). apply pol_lengths. }
+  assert (Hk0 : nth (taxis c k) (o_shape v) O = length us) by (rewrite Hta, Hsh; reflexivity).
+  assert (HV : forall i, (i < length (labs (ax_of s k)))%nat ->
+     match nth i (labs (ax_of s k)) None, eff_lab c k v i with
+     | Some l0, Some g => l0 = map (lbl k i) ts /\ g = map (lbl k i) us
+     | Some l0, None => l0 = map (lbl k i) ts /\ nth i (pol_adj (sch c k)) PReq = PFill /\ forall u, In u us -> lbl k i u = None
+     | None, g => g = None end).
+  { intros i Hi. specialize (HL i Hi). destruct (nth i (labs (ax_of s k)) None) as [l0|] eqn:E; [|exact HL].
+    assert (El : l0 = map (lbl k i) ts).
+    { pose proof (r_labs _ _ _ _ _ R k i l0 Hk) as RL. rewrite Hta in RL. apply RL. rewrite <- E. now apply nth_error_nth'. }
+    destruct (eff_lab c k v i); [split; assumption|]. destruct HL; auto. }
+  destruct (join_labs_rep lbl (fun gl l0 => Some (l0 ++ gl)) (fun x y => x ++ y) c k v _ ts us Hk0
+              ltac:(intros g l0 r [= <-] j -> ->; now rewrite map_app)
+              _ _ gs l true Hlen Er HV Ej) as (L1 & L2 & L3).
+  assert (Hs' : s' = {| shape := map (@length ent) ((ts ++ us) :: (ts ++ us) :: rest);
+                       data := build ((ts ++ us) :: (ts ++ us) :: rest) (val_bd ts us); axes := set_axes s k l |}) by (now inversion H).
+  clear H. subst s'.
+  set (s0 := {| shape := shape s; data := build (ts :: ts :: rest) (val_bd ts us); axes := axes s |}).
+  pose proof (Rep_swap_val c s _ (val_bd ts us) R) as R0. fold s0 in R0.
+  assert (E2 : (ts ++ us) :: (ts ++ us) :: rest = upd_all (taxes c k) (ts ++ us) (ts :: ts :: rest)) by (rewrite Ht; reflexivity).
+  rewrite E2 in *.
+  exact (finish_set (val_bd ts us) lbl c s0 k (ts :: ts :: rest) (ts ++ us) _ _ l W R0 Hk eq_refl eq_refl L1 L2 L3).
+Qed.
+End Square.
